@@ -261,6 +261,98 @@ def callback_threading(ctx, rule="C17.R8"):
         raise AnalysisError(f"{rule}: fewer than 3 contribution step_callback implementations found")
 
 
+def projection_unconditional(ctx, rule="C17.R14"):
+    """The contributions that own quaternion coordinates (RigidBody, the rods) project them to unit length in step_callback.  Stored
+    quaternions have unit length (to round-off) only if that store runs in EVERY step with the EXACT length: the store `q[S] = q[S] /
+    norm(q[S])` is not nested in a test on the state (`if not np.isclose(norm, 1)` skips every drift below the tolerance, which then
+    accumulates over the steps), and the divisor is the norm of the very block that is stored."""
+    rep = ctx.rep
+    NORMS = ("norm", "np.linalg.norm", "linalg.norm")
+    n_store = 0
+    for rel, mod in sorted(ctx.repo.modules.items()):
+        if not rel.startswith("cardillo/") or rel == "cardillo/system.py":
+            continue
+        for qn_, f in mod.defs().items():
+            if not (isinstance(f, ast.FunctionDef) and f.name == "step_callback" and len(f.args.args) >= 4):
+                continue
+            qn = f.args.args[2].arg
+            C = f"{rel}:{qn_}"
+            parents = {}
+            for a in ast.walk(f):
+                for b in ast.iter_child_nodes(a):
+                    parents[b] = a
+            alias = {}  # local -> source text of the expression it names (single assignment)
+            for a in ast.walk(f):
+                if isinstance(a, ast.Assign) and len(a.targets) == 1 and isinstance(a.targets[0], ast.Name):
+                    alias.setdefault(a.targets[0].id, []).append(a.value)
+
+            def resolve(e):
+                seen = 0
+                while isinstance(e, ast.Name) and len(alias.get(e.id, [])) == 1 and seen < 4:
+                    e = alias[e.id][0]
+                    seen += 1
+                return e
+
+            def norm_of(e):
+                """source of X when e is a Euclidean norm of X"""
+                e = resolve(e)
+                if isinstance(e, ast.Call) and (dotted(e.func) or "") in NORMS and len(e.args) == 1 and not e.keywords:
+                    return norm_src(resolve(e.args[0]))
+                if isinstance(e, ast.Call) and (dotted(e.func) or "").split(".")[-1] == "sqrt" and len(e.args) == 1:
+                    a = resolve(e.args[0])
+                    if isinstance(a, ast.BinOp) and isinstance(a.op, ast.MatMult) and norm_src(resolve(a.left)) == norm_src(resolve(a.right)):
+                        return norm_src(resolve(a.left))
+                return None
+
+            for st in ast.walk(f):
+                tgt = val = None
+                if isinstance(st, ast.Assign) and len(st.targets) == 1 and isinstance(st.targets[0], ast.Subscript):
+                    tgt, val = st.targets[0], st.value
+                elif isinstance(st, ast.AugAssign) and isinstance(st.target, ast.Subscript):
+                    tgt, val = st.target, st
+                if tgt is None:
+                    continue
+                b = tgt
+                while isinstance(b, ast.Subscript):
+                    b = b.value
+                if not (isinstance(b, ast.Name) and b.id == qn):
+                    continue
+                n_store += 1
+                # (a) unconditional
+                g = parents.get(st)
+                guard = None
+                while g is not None and g is not f:
+                    if isinstance(g, (ast.If, ast.While)) and any(isinstance(x, ast.Name) and (x.id == qn or x.id in alias) for x in ast.walk(g.test)):
+                        guard = g
+                    if isinstance(g, ast.Try):
+                        guard = guard or g
+                    g = parents.get(g)
+                # (b) exact length of the stored block
+                tsrc = norm_src(tgt)
+                exact = None
+                if isinstance(val, ast.AugAssign):
+                    if isinstance(val.op, ast.Div):
+                        exact = norm_of(val.value) == tsrc
+                else:
+                    v = resolve(val)
+                    if isinstance(v, ast.BinOp) and isinstance(v.op, ast.Div):
+                        num = norm_src(resolve(v.left))
+                        exact = num == tsrc and norm_of(v.right) == tsrc
+                if guard is not None and isinstance(guard, (ast.If, ast.While)):
+                    rep.bad(rule, C, st, f"the projection `{norm_src(st)[:60]}` only runs when `{norm_src(guard.test)[:60]}` holds, a test on the state: steps whose drift stays below "
+                            "that threshold are stored un-normalised and the solver continues from them, so the stored quaternions are off unit length by up to the threshold instead of round-off",
+                            f"{rel}:{st.lineno}")
+                elif exact is False:
+                    rep.bad(rule, C, st, f"`{norm_src(st)[:70]}` does not divide the stored block `{tsrc}` by its own Euclidean length: the stored quaternion is not of unit length",
+                            f"{rel}:{st.lineno}")
+                elif exact is None:
+                    rep.note(f"{rule}: {C}: store `{norm_src(st)[:60]}` not recognised as block / norm(block); not decided")
+                else:
+                    rep.ok(rule, C, f"`{tsrc}` is divided by its own length on every call")
+    if n_store < 2:
+        raise AnalysisError(f"{rule}: only {n_store} quaternion projections found in the contributions' step_callback (RigidBody and the rods have one each)")
+
+
 def stored_time_is_solved_time(ctx, rule="C17.R13"):
     """R_x solves g(self.tn + self.dt, q_{n+1}) = 0.  If solve() labels the step with tn + min(self.dt, t1 - tn) the last step of a run whose
     t1 is not a multiple of dt is solved at tn + dt and stored under t1: for a rheonomic constraint g(t1, q_N) = O(dt)."""
@@ -371,6 +463,8 @@ def ivp_full_mass_matrix(ctx, rule="C17.R11"):
 
 def run(ctx):
     rep = ctx.rep
+    rep.rule("C17.R14", "the contributions' step_callback projects every quaternion block unconditionally and by its own exact length (no tolerance-gated skip, no other divisor)", 2)
+    projection_unconditional(ctx)
     rep.rule("C17.R13", "BackwardEuler: the time a step is STORED under is the time its equations were SOLVED at: tn1 = self.tn + self.dt with the same self.dt that R_x / J_x / prox read (a locally shortened last step must also shorten the equations)", 1)
     stored_time_is_solved_time(ctx)
     rep.rule("C17.R12", "the first stored step is a projected state on EVERY assembly path: in consistent_initial_conditions the call system.step_callback(t0, q0, u0) (quaternion normalisation) dominates every return, the early exits for 'no consistent initial conditions requested' / nu == 0 included", 1)
@@ -704,4 +798,16 @@ MUTANTS += [
 MUTANTS += [
     dict(id="c17-r13-seed", canary=True, what="[seeded by sub-agent] BackwardEuler.solve shortens the LABEL of the last step (dt = min(self.dt, t1 - tn)) while R_x keeps solving with self.dt", file='cardillo/solver/backward_euler.py',
          old="            tn1 = self.tn + self.dt\n", new="            dt = min(self.dt, self.t1 - self.tn)\n            tn1 = self.tn + dt\n", expect="C17.R13"),
+]
+
+RB17 = "cardillo/discrete/rigid_body.py"
+MUTANTS += [
+    dict(id="c17-r14-seed", canary=True, what="[seeded by sub-agent] RigidBody.step_callback skips the projection for quaternions np.isclose to unit length", file=RB17,
+         old="        q[3:] = q[3:] / norm(q[3:])\n        return q, u", new="        p_norm = norm(q[3:])\n        if not np.isclose(p_norm, 1.0):\n            q[3:] = q[3:] / p_norm\n        return q, u", expect="C17.R14"),
+    dict(id="c17-r14-div", what="rods: nodal quaternions divided by the squared length", file="cardillo/rods/_base.py",
+         old="            q[self.nodalDOF_p[node]] = p / norm(p)", new="            q[self.nodalDOF_p[node]] = p / (p @ p)", expect="C17.R14"),
+]
+NEUTRAL += [
+    dict(id="c17-n-r14", canary=True, what="RigidBody.step_callback with the norm hoisted into a local and an in-place division", file=RB17,
+         old="        q[3:] = q[3:] / norm(q[3:])\n        return q, u", new="        p_norm = norm(q[3:])\n        q[3:] /= p_norm\n        return q, u"),
 ]
